@@ -299,7 +299,7 @@ pub struct InstrCase {
     /// 5 character literal (when v is a printable character, also far beyond one byte), 6 a `.set` variable
     /// re-assigned while `.dseg` is selected, 7 / 8 through a macro: a compound argument whose grouping
     /// matters, or a body that applies an operator to the parameter (one macro per line, so only the first
-    /// value operand that asks for it gets it)
+    /// value operand that asks for it gets it), 9 `~w` with w = !v, 10 `-w` with w = -v
     pub spell: Vec<u8>,
 }
 
@@ -363,7 +363,7 @@ pub fn instr_case(c: &mut Cur) -> InstrCase {
         }
         v
     };
-    let spell = (0..ops.len()).map(|_| c.u8() % 9).collect();
+    let spell = (0..ops.len()).map(|_| c.u8() % 11).collect();
     InstrCase { m, ops, pc, dev, spell }
 }
 
@@ -392,6 +392,23 @@ impl InstrCase {
                         Some(ch) if v >= 0x20 && ch != '\'' && ch != '\\' && ch != '"' && !ch.is_control() && v != 0x7f => format!("'{}'", ch),
                         _ => v.to_string(),
                     },
+                    // the value as the complement / the negation of another one
+                    9 => {
+                        let w = !v;
+                        if w >= 0 {
+                            format!("~{}", w)
+                        } else {
+                            format!("~({})", w)
+                        }
+                    }
+                    10 if v.checked_neg().is_some() => {
+                        let w = -v;
+                        if w >= 0 {
+                            format!("-{}", w)
+                        } else {
+                            format!("-({})", w)
+                        }
+                    }
                     6 => {
                         pre.push_str(&format!(".set fz_s{} = 1\n.dseg\n.set fz_s{} = {}\n.cseg\n", i, i, v));
                         format!("fz_S{}", i)
